@@ -5,7 +5,7 @@ from props import b16dag as D
 
 ID = "C43"
 THEOREMS = ["C43_walk_perm", "C43_pre_perm", "C43_post_perm", "C43_bfs_perm", "C43_ctime_perm", "C43_first_parent_perm",
-            "C43_limit", "C43_post_topological_refuted", "C43_all_refuted", "C43_all_partial"]
+            "C43_limit", "C43_bfs_level_order", "C43_ctime_newest_first", "C43_post_topological_refuted", "C43_all_refuted", "C43_all_partial"]
 MODEL_FILES = ["CommitWalk.v", "LogWalk.v"]
 MODELLED = ("plumbing/object/commit_walker.go (commitPreIterator, commitPostIterator, commitPostIteratorFirstParent, "
             "NewCommitAllIter/addReference), commit_walker_bfs.go, commit_walker_ctime.go (incl. the gods binary heap), "
